@@ -346,7 +346,7 @@ MANIFEST_TEXT = {
              "through a large-block allocator are paired the same way with the payload compared in full.",
         note=SAN_NOTE),
     "C05": dict(
-        technique="runtime monitoring: random operation histories with a reference model carried along and compared after every step (image, values, touched marks) plus an explicit invariant assertion by the model's own decoder/evaluator; out-of-band corruption + sanitise rounds; ASan/UBSan",
+        technique="runtime monitoring: random operation histories with a reference model carried along and compared after every step (image, values, touched marks) plus an explicit invariant assertion by the model's own decoder/evaluator; out-of-band corruption + sanitise rounds; the same histories with their choices drawn from a libFuzzer input (coverage-guided); ASan/UBSan",
         text="The invariant is asserted by an independent evaluator after every one of several hundred thousand steps, "
              "not just at the end, so a constraint bypass shows one step after it happened with the full history as "
              "witness. Refused steps must leave every word unchanged, bit operations must change exactly the requested "
